@@ -131,10 +131,7 @@ class FunctionAnalysis:
         self.state = dict(outer_state or {})
         a = fnode.args
         self.params = [x.arg for x in a.posonlyargs + a.args + a.kwonlyargs]
-        if a.vararg:
-            self.params.append(a.vararg.arg)
-        if a.kwarg:
-            self.params.append(a.kwarg.arg)
+        # *args / **kwargs are containers created for this call: writing *them* is not a write to caller data
         self.self_name = self.params[0] if is_method and self.params and self.params[0] in ("self", "cls") else None
         for p in self.params:
             self.state[p] = Taint(p, p, None, [f"parameter {p}"])
